@@ -224,7 +224,11 @@ func vRunAbacoUDPDevice(c *vCase) {
 	var heldBatch []*packets.Packet
 	var heldSeq []uint32
 	check := func() bool {
-		got, err := dev.ReadAllPackets()
+		var got []*packets.Packet
+		var err error
+		if !vWatched(c, "ReadAllPackets (UDP device)", 15*time.Second, func() { got, err = dev.ReadAllPackets() }) {
+			return false // the device no longer answers (wait-state analysis has reported it)
+		}
 		if err != nil {
 			c.Violate("c15:udp-device", "ReadAllPackets: %v; history %v", err, hist)
 			return false
